@@ -9,7 +9,8 @@ theorem close_never_raises (P : Params) (s s' : St) (l : Label) (o : Obs) (t : T
 
 theorem close_accepted (P : Params) (s : St) (t : Tid) (h : mayCall s t = true) :
     (step P s (.callClose t)).isSome = true := by
-  simp only [step, h, if_true]; split <;> rfl
+  simp only [step, h, if_true]; repeat' split
+  all_goals rfl
 
 theorem cleared_step (P : Params) (s s' : St) (l : Label) (o : Option Obs)
     (hi : s.closeStarted = true → s.discCbSet = false) (hs : step P s l = some (s', o)) :
@@ -91,9 +92,8 @@ theorem closeInv_step (P : Params) (s s' : St) (l : Label) (o : Option Obs)
     l4_step_cases hs <;>
       (apply closeInv_setUpc s (hi := hi) <;> simp_all [needsDead, needsClosed])
   | callClose t0 =>
-    l4_step_cases hs
-    · apply closeInv_setUpc s (hi := hi) <;> simp_all [needsDead, needsClosed]
-    · apply closeInv_setUpc s (hi := hi) <;> simp_all [needsDead, needsClosed]
+    l4_step_cases hs <;>
+      (apply closeInv_setUpc s (hi := hi) <;> simp_all [needsDead, needsClosed])
   | connectFailed =>
     l4_step_cases hs <;>
       first
